@@ -62,6 +62,19 @@ CLAIMED['C19'] = {
           'Dropped by the extraction: everything of main() outside the two statement ranges (see evidence extraction_drops).',
   'design': '3 (C19)',
 }
+CLAIMED['C04'] = {
+  'text': 'Round trip, partly proved: lemma C04.round_trip_primitive is proved (z3) over the specification functions Enc / Dec -- to which '
+          'encode_primitive (C05) and make_stone_friendly (C06) are proved equal -- for every primitive validator, every valid value in '
+          'normal form and both decoding modes, with the library pairs strftime/strptime and b64encode/b64decode as stated hypotheses. '
+          'Everything composite (Nullable, List, Map, structs, enumerated subtypes, unions of unions) is NOT proved: the postcondition of '
+          'json_compat_obj_encode taken from the property text (decode(encode(v)) equals v, re-encoding gives the same JSON, strict and '
+          'lenient, object and string entry points) is checked on generated values of the compiled corpus -- a BOUNDED stand-in.',
+  'note': 'Proved: 1 lemma (2 cases). Bounded, not proved: the entry-point round trip on 600 / 8000 generated values per run. Known finding '
+          'K-C04-empty-nullable-member (a union member of nullable struct type holding a struct with no field set is read back as null) is '
+          'reported as KNOWN-FINDING and excluded by its case predicate only. Domain exclusions forced by C05/C06 (subclass instance in a '
+          'plain struct position, the catch-all tag) are stated in contracts/entrypoints.py: rt_domain.',
+  'design': '7.3 (C04)',
+}
 NOT_YET = {}
 NA = {
  'C09': 'property of emitted Python source when imported; no contract on an emitting function can express the semantics of its output text',
